@@ -2,11 +2,8 @@
             pub(super) fn pow_word(ring: &$ring, raw: $raw, exp: Word) -> $raw
             /*@
                 requires p_wf(ring), p_ok(ring, raw),
-                    // DEFECT REGION EXCLUDED: in the ring of modulus 1 `one(ring)` stores 2^(BITS-1) == the stored modulus (not a
-                    // valid element; its residue reads 1 instead of 0), so pow(0) is wrong there (single-word rings only)
-                    p_m(ring) >= 2 || exp != 0,
                 ensures p_ok(ring, ret),
-                    // C13: reduce(a).pow(e) == reduce(a^e)
+                    // C13: reduce(a).pow(e) == reduce(a^e), every modulus m >= 1 and every exponent (0 included)
                     p_res(ring, ret) == ipow(p_res(ring, raw), exp as int) % p_m(ring),
             @*/
             {
@@ -18,7 +15,6 @@
                     lemma_ipow_1(r);
                     lemma_ipow_2(r);
                     vstd::arithmetic::div_mod::lemma_small_mod(r as nat, m as nat);
-                    if m >= 2 { vstd::arithmetic::div_mod::lemma_small_mod(1, m as nat); }
                 }
                 @*/
                 match exp {
